@@ -1,6 +1,6 @@
 (* Properties_C06.v — arrays are bounds-checked total maps with independent elements.
    Only statements, `exact`, and Print Assumptions. *)
-From PE2 Require Import Arrays Lemmas_Arrays Eval Lemmas_DeepCopy Lemmas_HeapInv Run Lemmas_ConstLogic Lemmas_ConstThm.
+From PE2 Require Import Arrays Lemmas_Arrays Eval Lemmas_DeepCopy Lemmas_HeapInv Run Lemmas_ConstLogic Lemmas_ConstThm Lemmas_ArrStates.
 Local Open Scope Z_scope.
 
 (* an in-bounds index tuple addresses a cell inside the element vector *)
@@ -55,3 +55,37 @@ Theorem C06_elements_are_variables_of_the_element_type : forall ped repl lim fue
   exists cl, nm_get e (s_cells (snd (run_block ped repl lim fuel bl c s))) = Some cl /\ c_const cl = false /\ c_type cl = a_type ar.
 Proof. exact array_elements_are_variables_of_the_element_type. Qed.
 Print Assumptions C06_elements_are_variables_of_the_element_type.
+
+(* ---- what an indexed name denotes, for every state and context; the index expressions are any that evaluate without touching the
+   state (`evaluates ev s e r`: ev e s = (Ok r, s)); `index_ok d r i`: r is an INTEGER result holding i, and i lies within d ---- *)
+(* in bounds: a[i1,...,in] resolves to exactly the element cell the linearisation of the tuple selects -- so a write changes that
+   element and a read returns what was last written to the same tuple (C06_linear_injective: different tuples, different cells) *)
+Theorem C06_element_resolves_to_the_selected_cell : forall ped repl lim fuel t r' idx c s aid a rsl is eid,
+  ev_resolve (evs_at ped repl lim fuel) r' c s = (Ok (HArr aid), s) -> nm_get aid (s_arrs s) = Some a ->
+  List.length idx = List.length (a_dims a) -> Forall2 (evaluates (fun x => ev_eval (evs_at ped repl lim fuel) x c) s) idx rsl ->
+  Forall2 (fun dr i => index_ok (fst dr) (snd dr) i) (combine (a_dims a) rsl) is ->
+  nth_z (a_elems a) (linear is (a_dims a)) = Some eid ->
+  ev_resolve (evs_at ped repl lim (S fuel)) (RIndex t r' idx) c s = (Ok (HVar eid), s).
+Proof. exact element_resolves_to_the_selected_cell. Qed.
+Print Assumptions C06_element_resolves_to_the_selected_cell.
+
+(* an index that is not an INTEGER or lies outside its bounds is a runtime error; the whole state is as it was: no element is
+   read or written.  (`int_tagged`: an INTEGER result holds an integer, which C05_results_have_their_type guarantees.) *)
+Theorem C06_bad_index_is_an_error_without_effect : forall ped repl lim fuel t r' idx c s aid a rsl,
+  ev_resolve (evs_at ped repl lim fuel) r' c s = (Ok (HArr aid), s) -> nm_get aid (s_arrs s) = Some a ->
+  List.length idx = List.length (a_dims a) -> Forall2 (evaluates (fun x => ev_eval (evs_at ped repl lim fuel) x c) s) idx rsl -> Forall int_tagged rsl ->
+  ~ (exists is, Forall2 (fun dr i => index_ok (fst dr) (snd dr) i) (combine (a_dims a) rsl) is) ->
+  exists f, ev_resolve (evs_at ped repl lim (S fuel)) (RIndex t r' idx) c s = (Fail f, s).
+Proof. exact bad_index_is_an_error. Qed.
+Print Assumptions C06_bad_index_is_an_error_without_effect.
+
+Theorem C06_wrong_number_of_indices_is_an_error : forall ped repl lim fuel t r' idx c s aid a,
+  ev_resolve (evs_at ped repl lim fuel) r' c s = (Ok (HArr aid), s) -> nm_get aid (s_arrs s) = Some a ->
+  List.length idx <> List.length (a_dims a) -> exists f, ev_resolve (evs_at ped repl lim (S fuel)) (RIndex t r' idx) c s = (Fail f, s).
+Proof. exact wrong_number_of_indices_is_an_error. Qed.
+Print Assumptions C06_wrong_number_of_indices_is_an_error.
+
+Theorem C06_indexing_a_variable_is_an_error : forall ped repl lim fuel t r' idx c s id,
+  ev_resolve (evs_at ped repl lim fuel) r' c s = (Ok (HVar id), s) -> exists f, ev_resolve (evs_at ped repl lim (S fuel)) (RIndex t r' idx) c s = (Fail f, s).
+Proof. exact indexing_a_variable_is_an_error. Qed.
+Print Assumptions C06_indexing_a_variable_is_an_error.
